@@ -65,6 +65,7 @@ TRUSTED = [
     "the integer target step int(1e9/frequency) is computed by the harness and handed to the model (the float division is outside the model)",
     "numpy's treatment of reduce on an empty window in downsampled_like (nan for mean/median, 0 for sum, ValueError for min/max) is canonicalised by the harness, not modelled",
     "timestamps below 2^62 (np.int64 overflow is outside the model)",
+    "the period of a downsampled_by result is read through the public Slice.sample_rate (documented data frequency, 1e9/period): round(1e9/rate), exact for periods below 2^51 ns; no private attribute of pylake is read by the harness",
     "long recordings: source values are generated from the rule ((a*i + b*(i//w)) % m - c) / den by NumPy int64 arithmetic in the harness and by Nat/Int arithmetic in the model (Rule.val); the whole answer is judged by harness/c04.py judge_long (NumPy searchsorted / reduceat / sort on exact int64 numerators), the model is compared on windows only",
 ]
 ASSUMPTIONS = [
@@ -198,6 +199,29 @@ def samples_close(xs, ys):
 
 def target_of(freq):
     return int(1e9 / freq)
+
+
+def period_of(r):
+    """Sampling period (ns) of a downsampled channel, as a protocol token, read through the PUBLIC interface only (the
+    data source behind a Slice is a private attribute; a refactoring may rename it).  `Slice.sample_rate` is documented
+    as the data frequency: 1e9 / period for a constant-rate channel, so the integer period is round(1e9 / rate)
+    (exact below 2^51 ns; the rate itself is accepted within the property's 1e-9 relative precision, a last-bit
+    difference in how the rate is computed does not matter).  A rate that is not 1e9 / integer is shown as it is -- it
+    never equals the expected period.  '?' when the public interface does not give a rate (None: it does not call
+    the result a constant-rate channel; its samples and timestamps are judged all the same): agree() and the oracle
+    ignore a '?'."""
+    try:
+        sr = r.sample_rate
+    except Exception:
+        sr = None
+    if sr is None:
+        return "?"
+    sr = float(sr)
+    if math.isfinite(sr) and sr > 0:
+        d = int(round(1e9 / sr))
+        if d >= 1 and abs(1e9 / d - sr) <= 1e-9 * sr:
+            return str(d)
+    return f"rate:{sr!r}"
 
 
 # ------------------------------------------------------------------ long channels given by a rule
@@ -395,10 +419,11 @@ def _call_long(case):
                 r = s.downsampled_by(k, reduce=np_reduce(red))
                 ts, data = r.timestamps, r.data
                 clause, dev = judge_long(src, k * src["dt"], red, "center", ts, data, "bylong", memo)
-                if clause is None and int(r._src.dt) != k * src["dt"]:
-                    clause = f"bylong: period of the result is {int(r._src.dt)}, expected {k * src['dt']}"
+                per = period_of(r)
+                if clause is None and per not in ("?", str(k * src["dt"])):
+                    clause = f"bylong: period of the result is {per}, expected {k * src['dt']}"
                 verdicts.append((clause, dev))
-                out.append(f"ok {int(r._src.dt)} {len(data)} " + show_windows(ts, data, wins))
+                out.append(f"ok {per} {len(data)} " + show_windows(ts, data, wins))
             except Exception as e:
                 verdicts.append((f"bylong: refused a valid factor: {errname(e)}", "other"))
                 out.append(errname(e))
@@ -425,7 +450,7 @@ def _call_long(case):
             ts, data = np.asarray(r.timestamps), np.asarray(r.data)
             clause, dev = judge_long(src, k * src["dt"], red, "center", ts, data, "bylong", memo)
             verdicts.append((clause, dev))
-            out.append(f"ok {int(r._src.dt)} {len(data)} " + show_windows(ts, data, wins))
+            out.append(f"ok {period_of(r)} {len(data)} " + show_windows(ts, data, wins))
             # consistency of the two methods (whatever the expected values are)
             if ts_to is not None and case["where"] == "center":
                 m = min(len(ts), len(ts_to))
@@ -511,7 +536,7 @@ def _call(case):
         if k == "toby":
             try:
                 r = s.downsampled_by(case["k"], reduce=np_reduce(case["reduce"]))
-                out.append(f"ok {int(r._src.dt)} " + show(r.timestamps, r.data))
+                out.append(f"ok {period_of(r)} " + show(r.timestamps, r.data))
             except Exception as e:
                 out.append(errname(e))
         return out
@@ -519,7 +544,7 @@ def _call(case):
         s = build(case["src"])
         _warm(lambda: s.downsampled_by(case["k"], reduce=_other_reduce(case["reduce"])))
         r = s.downsampled_by(case["k"], reduce=np_reduce(case["reduce"]))
-        return [f"ok {int(r._src.dt)} " + show(r.timestamps, r.data)]
+        return [f"ok {period_of(r)} " + show(r.timestamps, r.data)]
     if k == "like":
         s = build(case["src"])
         ref = build(case["ref"])
@@ -624,7 +649,7 @@ def agree(case, i, ia, ma):
                 ys = [(t, empty if v == "E" else v) for t, v in ys]
             if not samples_close(xs, ys):
                 return False
-        elif a != b:
+        elif a != b and a != "?":  # '?': an observation the public interface did not determine (period_of)
             return False
     return True
 
@@ -760,7 +785,7 @@ def oracle_by(case, ans):
     exp = expected_by(case)
     if None in exp:
         return "harness-bug: empty block"
-    if int(toks[0]) != src["dt"] * case["k"]:
+    if toks[0] not in ("?", str(src["dt"] * case["k"])):
         return f"by: period of the result is {toks[0]}, expected {src['dt'] * case['k']}"
     got = parse_samples(toks[1])
     if not samples_close(got, exp):
